@@ -9,7 +9,7 @@ def commits():
 
 CLAIMED = {
  "C05": dict(design="DESIGN.md §4 C05",
-   text="Seeded search over simulated executions of the real tscreen input pipeline and baseScreen event API: every interleaving decision between the input reader, the main loop, posters, consumers (PollEvent or ChannelEvents) and the terminal, every ready-select choice, read partition, poller stall and resize is drawn from the seed; the recorded ledger of causes and deliveries is checked for exactly-once, order, PostEvent result <=> delivery, HasPendingEvent, channel close and When() bounds after a final drain; PostEvent must never park (it enqueues or reports a full queue at once); the final Fini finds the screen running, suspended, or suspended after a Resume whose tty start failed, and must close the ChannelEvents channel / release PollEvent each time. Sampling, not proof: a clean batch is evidence over the seeds run.",
+   text="Seeded search over simulated executions of the real tscreen input pipeline and baseScreen event API: every interleaving decision between the input reader, the main loop, posters, consumers (PollEvent or ChannelEvents) and the terminal, every ready-select choice, read partition, poller stall and resize is drawn from the seed; the recorded ledger of causes and deliveries is checked for exactly-once, order, PostEvent result <=> delivery, HasPendingEvent, channel close and When() bounds after a final drain; PostEvent must never park (it enqueues or reports a full queue at once); the final Fini finds the screen running, suspended, or suspended after a Resume whose tty start failed, and must close the ChannelEvents channel / release PollEvent each time; one Suspend/Resume may occur in the application's script (events already queued and accepted posts survive it; undecoded input is dropped); the polling goroutine may also draw between polls (an event loop that also draws must never deadlock against the input pipeline). Sampling, not proof: a clean batch is evidence over the seeds run.",
    note="Trusted: the simulator (simrt) and the source instrumentation (simrewrite) preserve Go semantics (select among ready cases chosen by the simulator is a refinement of Go's random choice); expected events come from a token generator with independent decodings (xterm family only); fake Tty stands in for /dev/tty; Suspend/Resume excluded from C05 runs by design (C06 covers them).",
    technique="deterministic simulation: serialised seeded scheduler over instrumented source, fake tty, event ledger oracle, rapid shrinking"),
  "C06": dict(design="DESIGN.md §4 C06",
